@@ -28,7 +28,7 @@ RUNS = {"quick": 1000, "thorough": 40000}
 DEADLINE = {"quick": 220, "thorough": 3000}
 OPS_KEYS = ("script",)
 RULE = ("case = (solver x noise type x SDE spec incl. stiffness, dtype, ts with 2-6 output times, dt, dt_min, rtol, "
-        "atol, stub or real Brownian motion, configuration real|adv with an explicit script of adversarial error "
+        "atol (incl. explicit zeros), entry point sdeint | sdeint_adjoint, stub or real Brownian motion, configuration real|adv with an explicit script of adversarial error "
         "values) from seeded named PRNG streams; distinct = distinct hash of the case; non-trivial = the schedule has "
         ">= 3 trials and at least one rejection or one step at dt_min, and the value model was evaluated")
 ASSUMPTIONS = ["precondition dt >= dt_min, and dt_min resolvable at the time scale in the working dtype (>= 8 ulp)",
